@@ -16,6 +16,7 @@ import (
 // writeParser is what the three parsers have in common for incremental feeding.
 type writeParser interface {
 	Write([]byte) (int, error)
+	Parse([]byte) error
 }
 
 type nexter interface{ Next() error }
